@@ -11,8 +11,10 @@ from . import harness, build
 from .harness import G
 
 
-def write_evidence(prop, ev):
-    d = os.path.join(harness.VERIF, 'evidence')
+def write_evidence(prop, ev, scratch=False):
+    # development runs (a job filter, or a scratch copy of the repository under test) must not overwrite the
+    # evidence of the registered commands
+    d = os.path.join(build.CACHE, 'evidence-scratch') if scratch else os.path.join(harness.VERIF, 'evidence')
     os.makedirs(d, exist_ok=True)
     p = os.path.join(d, prop + '.json')
     tmp = p + '.tmp%d' % os.getpid()
@@ -163,7 +165,7 @@ def main(argv=None):
             'z3 answers (bit-vector theory)',
         ],
     }
-    write_evidence(prop, ev)
+    write_evidence(prop, ev, scratch=bool(a.only) or build.REPO != '/repo')
     print('%s tier=%s: %d paths, %d jobs, outcomes=%s, %d solver queries (%.1fs), %d native validations, wall %.1fs'
           % (prop, tier, agg['paths'], len(jobs), agg['status_counts'], agg['queries'], agg['solver_s'],
              agg['validated'], wall))
